@@ -10,8 +10,10 @@ META = {
     "text": "Coq theorems over an executable model of lexing/, jsonx/ and strtoken: for every byte string the lexer "
             "yields a finite token list without panicking (structural), the fuel-driven recursive-descent parser "
             "(value, typed series with SkipErrStmt recovery, ToJSON, Unmarshal, command-line splitting) never runs out "
-            "of fuel 2*|tokens|+8 and never panics, every entry point returns a value or at least one error, and input "
-            "cut inside a string, a block comment or an open bracket is rejected. The model is tied to the code on every "
+            "of fuel 2*|tokens|+8 and never panics, every entry point returns a value or at least one error, one Decoder "
+            "driven by any sequence of More / Decode / DecodeSeries calls returns at every call (and is unusable after a "
+            "parse error), and input cut inside a string, a block comment or an open bracket is rejected (end to end, read "
+            "off the tokens of the whole input; strtoken.Parse included). The model is tied to the code on every "
             "run by a translator (keyword set, token codes, operator runes, exponent signs, error cap, the loop condition "
             "of SkipErrStmt) and by differential runs of the real code in a watched child process, evaluated inside Coq.",
     "note": "Trusted: Coq kernel + vm_compute; translator gen/jsonx.go; harness + shim; bufio.ReadRune decoding and "
